@@ -14,6 +14,8 @@ subid name=<k> id=<id> [rm=<mask>] [uo]                -> seed=[…]      (PullI
 unsub name=<k>                                         -> ok
 upd|add|del|vset … (as C01)                            -> val=… err=… | k1=[delivered…] k2=[…]   (live subscriptions)
 racea|raceb|racec w=<upd|add|del|vset> sname=<k> [srm=<mask>] [suo] … (the write's keys)
+raced id=<id> [am] [ev=…] [chk=…] u=<upd|add|del> uid=<id> [umsg=<msg>] [ucia] [uwt=<t>]
+                                                       -> uval=… uerr=… | k1=[…] || val=… err=… | k1=[…]
 ```
 -/
 namespace ScVerif.C04
@@ -186,6 +188,28 @@ def handleOpt (st : DrvState) (toks : List String) : Option (DrvState × String)
     | "racea", _ => handleRace st .a kv
     | "raceb", _ => handleRace st .b kv
     | "racec", _ => handleRace st .c kv
+    | "raced", .coll cfg s =>
+      -- a Delete is held right after its first read (coll.delete.afterRead) while another write of the
+      -- writer runs to completion; then the Delete goes on with its now possibly stale read
+      let id ← kvGet kv "id"
+      let u ← kvGet kv "u"
+      let uid ← kvGet kv "uid"
+      let ukv : KV := kv.filterMap (fun p =>
+        if p.1 == "ucia" then some ("cia", p.2) else if p.1 == "uwt" then some ("wt", p.2) else none)
+      let uwr ← parseWriteReq? ukv
+      let wr ← parseWriteReq? (kv.filter (fun p => !(["u", "uid", "umsg", "ucia", "uwt"].contains p.1)))
+      let stale := lookup s.items (icptId cfg id)
+      let r1 ← (match u with
+        | "upd" => (kvGet kv "umsg").bind parseMsg? |>.map (fun m => Coll.update cfg s uid m uwr)
+        | "add" => (kvGet kv "umsg").bind parseMsg? |>.map (fun m => Coll.add cfg s uid m uwr)
+        | "del" => some (Coll.delete cfg s uid uwr)
+        | _ => none)
+      let (o1, s1) := r1
+      let subs1 := publish (dC cfg st.eqv) st.subs o1.events []
+      let (o2, s2) := deleteLoop cfg wr (icptId cfg id) 5 stale s1
+      pure ({ st with res := .coll cfg s2, subs := publish (dC cfg st.eqv) subs1 o2.events [] },
+            s!"uval={showOptMsg o1.val} uerr={showErr o1.err} | " ++ deliverC cfg st.eqv (live st.subs) o1.events ++
+            s!" || val={showOptMsg o2.val} err={showErr o2.err} | " ++ deliverC cfg st.eqv (live subs1) o2.events)
     | "newc", _ =>
       let cfg ← parseCfg? kv
       let rng ← parseRng? ((kvGet kv "rng").getD "")
